@@ -572,6 +572,70 @@ def replay_batch(fname):
     return replay
 
 
+def unit_frames_sdmx_plan(ctx):
+    """SDMXBasePlan.get_features / get_vxc (the SDMX plan between EXXSphGenerator's caches and the C contractions): get_vxc must leave its arguments — the
+    potential vxc_ig and the l=0 / l=1 intermediates that the generator CACHES between the feature pass and the potential pass — unchanged, so that a second
+    potential evaluation after one feature pass gives the same result; get_features must leave p_vag unchanged.  Fit matrices symbolic; pyscf.lib.dot / einsum
+    by their numpy meaning."""
+    it = ctx.interp
+    pm = it.load_module(PMOD)
+    it.externals["pyscf.lib.dot"] = lambda interp, a, b, *r, **k: np.asarray(a, dtype=object).dot(np.asarray(b, dtype=object))
+    it.externals["pyscf.lib.einsum"] = lambda interp, spec, *ops, **k: np.einsum(spec, *[np.asarray(o, dtype=object) for o in ops])
+    fq = [PMOD + ":SDMXBasePlan.get_vxc", PMOD + ":SDMXBasePlan.get_features"]
+    na, ng = 2, NS
+    for n0, n1 in ((2, 0), (1, 1), (2, 2)):
+        plan = Obj(pm.ns["SDMXPlan"])
+        st = Obj(ClassV("_SDMXSettings", [], pm))
+        st.fields.update({"nfeat": n0 + n1, "n1terms": n1, "pows": list(range(n0)), "ndterms": 0})
+        plan.fields.update({"settings": st, "nspin": 1, "nalpha": na, "fit_matrices": [sym_array("F%d" % k, (na, na)) for k in range(n0 + n1)]})
+        tag = "sdmx-plan[n0=%d,n1=%d]" % (n0, n1)
+        p_vag = sym_array("p", (4 if n1 else 1, na, ng))
+        p0 = p_vag.copy()
+        l0tmp = np.full((n0, na, ng), tm.ZERO, dtype=object)
+        l1tmp = np.full((n1, 3, na, ng), tm.ZERO, dtype=object) if n1 else None
+        try:
+            feat = it.call_method(plan, "get_features", [p_vag], {"l0tmp": l0tmp, "l1tmp": l1tmp})
+        except (Unsupported, PyRaise) as e:
+            ctx.undecided("%s get_features runs" % tag, str(e)[:200], fq)
+            continue
+        ctx.holds("%s get_features leaves p_vag unchanged" % tag, same_elements(p_vag, p0), "", fq)
+        vxc = sym_array("v", (n0 + n1, ng))
+        v0, l0c, l1c = vxc.copy(), l0tmp.copy(), (l1tmp.copy() if l1tmp is not None else None)
+        try:
+            out1 = np.asarray(it.call_method(plan, "get_vxc", [vxc, l0tmp], {"l1tmp": l1tmp}), dtype=object).copy()
+            ok_frame = same_elements(vxc, v0) and same_elements(l0tmp, l0c) and (l1tmp is None or same_elements(l1tmp, l1c))
+            out2 = np.asarray(it.call_method(plan, "get_vxc", [vxc, l0tmp], {"l1tmp": l1tmp}), dtype=object)
+        except (Unsupported, PyRaise) as e:
+            ctx.undecided("%s get_vxc runs" % tag, str(e)[:200], fq)
+            continue
+        ctx.holds("%s get_vxc leaves the potential and the cached l=0 / l=1 intermediates unchanged" % tag, ok_frame, "", fq, replay=replay_sdmx_plan_frames())
+        for idx in itertools.product(*[range(k) for k in out1.shape]):
+            ctx.equal("%s a second get_vxc after the same feature pass gives the same result %s" % (tag, list(idx)), [], out2[idx], out1[idx], fq, replay=replay_sdmx_plan_frames())
+        ctx.canary("%s canary" % tag, [], out1[(0, 0, 0)], 2 * tm.lift(out1[(0, 0, 0)]) + 1)
+
+
+def replay_sdmx_plan_frames():
+    def replay(wit):
+        from pyvc import native
+        native.install_shim()
+        import ciderpress.dft.plans as P
+        plan = P.SDMXPlan.__new__(P.SDMXPlan)
+        rng = np.random.RandomState(1)
+        na, ng, n0, n1 = 3, 4, 1, 1
+        plan.settings = type("S", (), {"nfeat": n0 + n1, "n1terms": n1, "pows": [0], "ndterms": 0})()
+        plan.nspin, plan.nalpha = 1, na
+        plan.fit_matrices = [rng.rand(na, na) for _ in range(n0 + n1)]
+        p = rng.rand(4, na, ng)
+        l0, l1 = np.empty((n0, na, ng)), np.empty((n1, 3, na, ng))
+        plan.get_features(p, l0tmp=l0, l1tmp=l1)
+        l1c = l1.copy()
+        v = rng.rand(n0 + n1, ng)
+        a = plan.get_vxc(v, l0, l1tmp=l1).copy()
+        b = plan.get_vxc(v, l0, l1tmp=l1)
+        return {"reproduced": bool(np.max(np.abs(a - b)) > 0 or np.max(np.abs(l1 - l1c)) > 0), "max_diff_second_call": float(np.max(np.abs(a - b))), "l1tmp_changed_by": float(np.max(np.abs(l1 - l1c)))}
+    return replay
+
+
 def unit_frames_maps(ctx):
     """Feature maps of transform_data (the objects a model's FeatureList is made of): fill_feat_ / fill_deriv_ never write the caller's raw feature
     array x (nor dfdy), for every registered class, every coincidence pattern of its index fields and every input (no domain restriction: in
@@ -715,7 +779,7 @@ def unit_c_defines_output(rel, fn, out):
 
 
 def units():
-    u = [("frames/settings", unit_frames_settings), ("frames/maps", unit_frames_maps)]
+    u = [("frames/settings", unit_frames_settings), ("frames/maps", unit_frames_maps), ("frames/sdmx-plan", unit_frames_sdmx_plan)]
     for version, level in (("ij", "MGGA"), ("i", "GGA"), ("j", "MGGA"), ("k", "MGGA")):
         u.append(("plan/%s/%s" % (version, level), unit_frames_plan(version, level)))
     for version in ("j", "ij"):
@@ -723,6 +787,10 @@ def units():
     for rel, fn, out in (("mod_cider/fast_sdmx.c", "contract_shl_to_alpha_l1", "p"), ("mod_cider/fast_sdmx.c", "SDMXcontract_ao_to_bas", "vbas"),
                          ("mod_cider/fast_sdmx.c", "SDMXcontract_ao_to_bas_grid", "vbas")):
         u.append(("c-defines-output/" + fn, unit_c_defines_output(rel, fn, out)))
+    # history of one integrator object: the molecule, the grids object or the spin count changes between calls (contract shared with C06 / C07)
+    from contracts import c06
+    for cn in ("NLDFNumInt", "NLDFNLOFNumInt", "NLOFNumInt", "CiderNumInt"):
+        u.append(("gen-cache/" + cn, c06.unit_gen_cache(cn)))
     for N in (1999, 2000, 2001, 4001):
         u.append(("chunk/N%d" % N, unit_chunking(N)))
     for fn in ("nr_rks", "nr_uks", "nr_rks_nldf", "nr_uks_nldf"):
